@@ -100,7 +100,7 @@ func (s *rrSched) park(label string) {
 	<-ch
 }
 
-var rrBase = time.Date(2031, 5, 6, 7, 8, 10, 0, time.UTC) // even second: aligned with every interval used
+var rrBase = time.Date(2031, 12, 31, 23, 59, 52, 0, time.UTC) // even second (aligned with every interval used), afternoon hour, and the ticks cross midnight, month and year
 
 func rrName(tick int) string {
 	return "r.log." + rrBase.Add(time.Duration(tick)*time.Second).Format("20060102150405")
